@@ -156,8 +156,7 @@ def main():
         print("DIGEST %s runs=%d" % (merged["batch_digest"], merged["runs"]))
         return 0 if not merged["errors"] else 3
     n_reg, reg_viol = run_regressions(profile, prop)
-    merged = kernel.run_batch(profile, a.seed, a.tier, n_runs, a.jobs, wall_cap, stop_on_first=a.first,
-                              chunk=max(20, n_runs // (max(a.jobs, 1) * 100)))
+    merged = kernel.run_batch(profile, a.seed, a.tier, n_runs, a.jobs, wall_cap, stop_on_first=a.first)
     if merged["errors"]:
         for e in merged["errors"][:5]:
             print("HARNESS-ERROR seed=%s index=%s %s" % (e["seed"], e["index"], e["error"]))
